@@ -151,11 +151,26 @@ def function_twins(rng, rel):
                             lambda: [F(v) for v in pv.get_partial_pressures(T, mb, cb, model)])
     # solver with explicit permeances
     kw = dict(precision=a["prec"], permeate_temperature=a["Tperm"], permeate_pressure=a["pperm"], calculation_type=model)
+    # explicit permeances: the same NUMBER and unit label for a component in both runs (whatever the code does with
+    # the unit, it must do it to the component the permeance belongs to)
+    pu = rng.choice([KG, KG, "SI", "GPU"])
+    out["perm_units"] = pu
     ja, jb, e5, e6 = both(
-        lambda: [F(v) for v in pa.calculate_partial_fluxes(T, ca, first_component_permeance=pv.Permeance(a["P1"]),
-                                                            second_component_permeance=pv.Permeance(a["P2"]), **kw)],
-        lambda: [F(v) for v in pb.calculate_partial_fluxes(T, cb, first_component_permeance=pv.Permeance(Pb[0]),
-                                                            second_component_permeance=pv.Permeance(Pb[1]), **kw)])
+        lambda: [F(v) for v in pa.calculate_partial_fluxes(T, ca, first_component_permeance=pv.Permeance(a["P1"], pu),
+                                                            second_component_permeance=pv.Permeance(a["P2"], pu), **kw)],
+        lambda: [F(v) for v in pb.calculate_partial_fluxes(T, cb, first_component_permeance=pv.Permeance(Pb[0], pu),
+                                                            second_component_permeance=pv.Permeance(Pb[1], pu), **kw)])
+    # the other direction on the SAME object: the same number read as a mole fraction (a) vs its mass-fraction equivalent (b)
+    if rel == "rebase":
+        ca2 = pv.Composition(p=a["xw"], type="molar")
+        cb2 = ca2.to_weight(mix)
+        j2a, j2b, e17, e18 = both(
+            lambda: [F(v) for v in pa.calculate_partial_fluxes(T, ca2, first_component_permeance=pv.Permeance(a["P1"]),
+                                                                second_component_permeance=pv.Permeance(a["P2"]), **kw)],
+            lambda: [F(v) for v in pa.calculate_partial_fluxes(T, cb2, first_component_permeance=pv.Permeance(a["P1"]),
+                                                                second_component_permeance=pv.Permeance(a["P2"]), **kw)])
+    else:
+        j2a, j2b, e17, e18 = ja, jb, e5, e6
     # solver / helpers with the membrane's permeances
     jma, jmb, e7, e8 = both(lambda: [F(v) for v in pa.calculate_partial_fluxes(T, ca, **kw)],
                             lambda: [F(v) for v in pb.calculate_partial_fluxes(T, cb, **kw)])
@@ -194,6 +209,7 @@ def function_twins(rng, rel):
     pack("pp", ppa, ppb, e3, e4, z2)
     pack("J", ja, jb, e5, e6, z2)
     pack("Jm", jma, jmb, e7, e8, z2)
+    pack("J2", j2a, j2b, e17, e18, z2)
     pack("y", ya, yb, e9, e10, 0.0)
     pack("sf", sfa, sfb, e11, e12, 0.0)
     pack("curve", cva, cvb, e13, e14, zc)
